@@ -49,6 +49,7 @@ def main():
         'g': (lambda *X: np.stack([gC[i, 0] + sum(gC[i, k + 1] * X[k] for k in range(d)) + 0 * X[0] for i in range(d)], axis=-1)),
         'A': (lambda *X: np.broadcast_to(AF, np.shape(X[0]) + (d, d)).copy()),
         'c': fr(fl['c']),
+        'B': (lambda *X, _B=np.array([[fr(x) for x in row] for row in fl['B']]): np.broadcast_to(_B, np.shape(X[0]) + _B.shape).copy()),
     }
     expr = job.get('expr') or vf_gen.render(job['tokens'])
     res = {'id': job['id'], 'expr': expr}
